@@ -652,6 +652,9 @@ def _grams_for(prop, tier, seed):
         extra = F.fam_rand(tier, seed, 5 if q else 25, "plain") + F.fam_rand(tier, seed, 4 if q else 20, "ws") + F.fam_rand(tier, seed, 3 if q else 15, "utf8")
         ops = F.fam_ops(tier)
         extra += ops[::6] if q else ops[::2]
+        # stack built-ins (PEEK_ALL, POP_ALL, slices) whose match ends at the very end of the sub-input; the trigger grammar
+        sl = F.fam_slices(tier)
+        extra += F.fam_trig(tier) + [dict(g, inputs=g["inputs"][::6 if q else 2]) for g in (sl[2:9:3] if q else sl)]
         for x in extra:
             x["ctxs"] = ctx if not q else ctx[:5]
             x["maxlen"] = min(x.get("maxlen", 3), 3)
@@ -949,6 +952,8 @@ def check_C07(tier, seed):
     ctx.notes["grammars"] = len(grams)
     rows = run_generic(ctx, "c07", grams, "sP", cmp_c07)
     forms_pass(ctx, "c07f", cmp_c07, tier)
+    # the raw-AST path builds repetition nodes with their own SKIP argument per rule kind: model on the source AST
+    run_generic(ctx, "c07s", families.fam_rawkinds(tier), "s", cmp_c07, ast="src", with_pest=False)
     import tracechk
     sub = [dict(g) for g in grams if tracechk.eligible(g)]
     tracechk.validate(ctx, "c07", sub[::3] if tier == "quick" else sub, seed, 4 if tier == "quick" else 20, rows=rows)
